@@ -160,9 +160,13 @@ func (fc *FnCtx) callByContract(fr *Frame, st *State, reach string, con *Contrac
 			// a ghost definition may name locals of the callee's body (e.g. a loop
 			// index): such a clause only has a meaning inside the callee
 			var ok bool
-			if t, ok = env.tryBool(cl.Expr); !ok {
+			if _, ok = env.tryBool(cl.Expr); !ok {
 				continue
 			}
+			// ghost assignment: the assigned cells are forgotten first (also when the
+			// callee's keep-list names the ghost: the definition is the one exception)
+			fc.ghostAssignTargets(env, cl.Expr)
+			t = env.evalBool(cl.Expr)
 		} else {
 			t = env.evalBool(cl.Expr)
 		}
@@ -1022,6 +1026,8 @@ func (fc *FnCtx) verify() {
 		return
 	}
 	bindResults(con, fn.Signature, res, vars)
+	nd0 := len(fc.ghostDefTargets)
+	defer func() { _ = nd0 }()
 	for _, cl := range con.Defines {
 		env := fc.specEnv(st, pre, vars, con.Pkg, fr, cl.Text)
 		fc.assumption("defines clause (ghost definition, assumed at its definition site): " + shortFnName(fn) + ": " + cl.Text)
@@ -1029,6 +1035,8 @@ func (fc *FnCtx) verify() {
 		fc.ghostAssignTargets(env, cl.Expr)
 		fc.sc.assume(tImp(retReach, env.evalBool(cl.Expr)))
 	}
+	// the ghost cells this function's own `defines` clauses assign are exempt from its keep-list check
+	fc.ownDefTargets = append([]modTarget{}, fc.ghostDefTargets[nd0:]...)
 	for _, cl := range con.Ensures {
 		for _, part := range splitConj(cl.Expr) {
 			env := fc.specEnv(st, pre, vars, con.Pkg, fr, cl.Text)
@@ -1072,7 +1080,7 @@ func (fc *FnCtx) verify() {
 			if !kept || fc.volatileNames[name] {
 				continue
 			}
-			if cond := fc.frameCond(st, name, nil); cond != "" {
+			if cond := fc.frameCond(st, name, fc.ownDefTargets); cond != "" {
 				fc.oblige(fr, "frame", "allbut: "+name, retReach, cond, true, nil)
 			}
 		}
@@ -1303,6 +1311,7 @@ func (fc *FnCtx) ghostAssignTargets(env *SpecEnv, sp Spec) {
 			if g := fc.eng.ghosts[id.Name]; g != nil && g.Field && len(ce.Args) == 1 {
 				ref := refOf(env.expr(ce.Args[0]))
 				fc.storeLoc(env.st, loc{name: "GH$" + g.Name, idx: []string{ref}, sort: g.Ret}, fc.sc.fresh("gdef_"+g.Name, g.Ret))
+				fc.ghostDefTargets = append(fc.ghostDefTargets, modTarget{kind: "ghost", ghost: g.Name, ref: ref, text: "defines " + g.Name})
 			}
 			return true
 		})
